@@ -40,6 +40,8 @@ class Check(Property):
                 b = rng.choice([z for z in P.by_dim.get(d, [a]) if z in P.rational] or [a])
                 e = rng.choice([1, -1, -2, 2])
                 steps.append({"f": "convert", "src": [[a, f"{e}/1"]], "dst": [[b, f"{e}/1"]], "x": "3/2"})
+                if rng.random() < 0.4:
+                    steps.append({"f": "convert", "src": [[b, f"{e}/1"]], "dst": [[a, f"{e}/1"]], "x": "1/1"})
             elif r < 0.32:
                 steps.append({"f": "parse", "s": rng.choice(["ab", "km", "kilometer/hour", "mV", "fm", "inch", "ms", "Pa", "cd",
                                                              "ab/second", "fm/hour", "meter/ab", "qx/second", "smoot/second", "zork/hour",
@@ -110,6 +112,9 @@ class Check(Property):
         out = []
         tw = {"-1/1": "-2/1", "-2/1": "-1/1"}
         for s in steps:
+            if s["f"] == "convert":
+                # the opposite direction is asked first: a memo must not answer it from the direction the history asked
+                out.append({"f": "convert", "x": "1/1", "src": s["dst"], "dst": s["src"]})
             if s["f"] in ("convert", "base", "root", "dim", "parse"):
                 out.append(dict(s))
             if s["f"] == "ctxto":
@@ -223,10 +228,11 @@ class Check(Property):
                 st["ctx_on"] = False
         return None
 
-    def mkreg(self):
+    def mkreg(self, tname="fraction"):
         import pint
-        u = regs.fresh("fraction")
-        c = pint.Context.from_lines(["@context c13ctx", "    foot = 1/2 * meter"], u.get_dimensionality, non_int_type=Fraction)
+        u = regs.fresh(tname)
+        c = pint.Context.from_lines(["@context c13ctx", "    foot = 1/2 * meter"], u.get_dimensionality,
+                                    non_int_type=Fraction if tname == "fraction" else float)
         u.add_context(c)
         return u
 
@@ -255,10 +261,10 @@ class Check(Property):
             return format(u.Unit(regs.pint_uc(u, s["u"], canonical=True)), "~P")
         return None
 
-    def run_history(self, c, with_queries=True):
+    def run_history(self, c, with_queries=True, tname="fraction"):
         """-> (registry, probe answers)"""
         import numpy as np
-        u = self.mkreg()
+        u = self.mkreg(tname)
         st = {}
         other = None
         logging.disable(logging.CRITICAL)
@@ -340,6 +346,14 @@ class Check(Property):
         for p, x, y in zip(c["probes"], a1, a2):
             if canon(x) != canon(y):
                 v.append(f"C13 after the history {[s['f'] for s in c['steps']]} the probe {p} answers {x}, "
+                         f"a registry that only saw the state changes answers {y}")
+        # the same in a float registry: identical questions are answered by identical computations, so the answers are equal
+        # bit for bit (and in type), whatever was asked before
+        _, f1 = self.run_history(c, with_queries=True, tname="float")
+        _, f2 = self.run_history(c, with_queries=False, tname="float")
+        for p, x, y in zip(c["probes"], f1, f2):
+            if canon(x) != canon(y):
+                v.append(f"C13 [float registry] after the history {[s['f'] for s in c['steps']]} the probe {p} answers {x}, "
                          f"a registry that only saw the state changes answers {y}")
         if not getattr(self, "_fixed_probes_done", False):
             self._fixed_probes_done = True
